@@ -23,6 +23,19 @@ def impl_output(arg):
         return ''.join(it.output_lines)
     return call_impl(run)
 
+def impl_engine(arg):
+    """the same write$/newline$ operations as a .bst function run by Interpreter.run (what the BibTeX engine
+    does with the physical lines, including whatever is still buffered when the style ends)"""
+    from pybtex.bibtex import bst
+    from pybtex.bibtex.interpreter import Interpreter
+    from pybtex.database.input.bibtex import Parser
+    def run():
+        body = ' '.join(('"%s" write$' % S(o[0])) if len(o) == 1 else 'newline$' for o in arg)
+        src = 'FUNCTION {f} { %s }\nEXECUTE {f}\n' % body
+        it = Interpreter(Parser, 'utf-8')
+        return it.run(bst.parse_string(src), [], [], 2)
+    return call_impl(run)
+
 def impl_history(arg):
     """several wrap calls one after the other in ONE process (a cache or any other state kept between
     calls shows up as a call whose answer depends on the earlier ones)"""
@@ -32,6 +45,7 @@ FUNCS = {
     1: ('pybtex.bibtex.utils.wrap', impl_wrap, ('T', 'S', 'N', 'S')),
     2: ('Interpreter.output/newline', impl_output, ('L', ('O', 'S'))),
     3: ('history of wrap calls in one process', impl_history, ('L', ('T', 'S', 'N', 'S'))),
+    4: ('Interpreter.run of a style that only writes (physical lines of engine output)', impl_engine, ('L', ('O', 'S'))),
 }
 
 RULE = ('exhaustive: every string over {a, space} up to the length bound x widths 1..9 x indents of 0..3 spaces; '
@@ -49,7 +63,10 @@ def describe(fn, arg):
         return {'text': S(arg[0]), 'width': arg[1], 'indent': S(arg[2])}
     if fn == 3:
         return {'calls': [{'text': S(c[0]), 'width': c[1], 'indent': S(c[2])} for c in arg]}
-    return {'ops': [('write$', S(o[0])) if len(o) == 1 else 'newline$' for o in arg]}
+    return {'ops': [('write$', S(o[0])) if len(o) == 1 else 'newline$' for o in arg], 'through': 'Interpreter.output/newline' if fn == 2 else 'a generated .bst run by Interpreter.run'}
+
+def model_arg(fn, a):
+    return a
 
 def nontrivial(fn, arg, out):
     if fn == 3:
@@ -117,6 +134,16 @@ def gen(tier, rng):
                 ops.append([])
         ops.append([])
         yield ('long_output', 2, ops)
+    for i in range(250 if tier == 'quick' else 2500):
+        ops = []
+        for _ in range(rng.randint(1, 10)):
+            if rng.random() < 0.3:
+                ops.append([])
+            else:
+                ops.append([''.join(rng.choice('ab c,.') for _ in range(rng.randint(0, 70)))])
+        if rng.random() < 0.5 and ops and ops[-1]:
+            ops.append([' '.join('w%d' % k for k in range(rng.randint(1, 60))) + rng.choice(['', ' ', '  '])])   # pending text, no newline$
+        yield ('engine_run', 4, ops)
     for i in range(300 if tier == 'quick' else 3000):
         ops = []
         for _ in range(rng.randint(1, 8)):
@@ -134,7 +161,7 @@ def oracle(fn, arg, out):
             if m:
                 return 'call %d of the history: %s' % (k, m)
         return None
-    if fn == 2:
+    if fn in (2, 4):
         # write$/newline$ runs: the words of the emitted text are the words of the written text, in order
         # (nothing lost, duplicated or glued together), and every physical line obeys the width law
         if out[0] != 0:
